@@ -654,9 +654,7 @@ func (ex *Exec) enterLoop(fr *Frame, st *State, li *loopInfo) *State {
 		ex.assumeLoopFrame(out, n, nh)
 	}
 	if allocMod {
-		na := Fresh("alloc@L", RefSort)
-		out.assume(ULe(out.Alloc, na))
-		out.Alloc = na
+		out.advanceAlloc("alloc@L")
 	}
 	// 4. assume the invariant
 	out.assume(ex.rangeInvariant(fr, out, li))
@@ -1208,7 +1206,15 @@ func (ex *Exec) convert(st *State, v Value, t types.Type) Value {
 	return retype(v, t)
 }
 
+// lazySink, when set (while a query is being built), receives quantified facts that arise
+// inside the body of another quantified fact being instantiated (nested quantifiers).
+var lazySink *[]*LazyForall
+
 func (ex *Exec) addLazy(l *LazyForall) {
+	if lazySink != nil {
+		*lazySink = append(*lazySink, l)
+		return
+	}
 	ex.lazy = append(ex.lazy, l)
 }
 
@@ -1278,6 +1284,9 @@ func (ex *Exec) indexAddr(fr *Frame, st *State, x *ssa.IndexAddr) Value {
 		if b.L.Kind == LArr {
 			return PtrV{Loc{Kind: LElem, Root: at.Elem(), Arr: b.L.Arr, Idx: i, Ty: at.Elem()}, x.Type()}
 		}
+		if er := embeddedArrayRef(b.L); er != nil {
+			return PtrV{Loc{Kind: LElem, Root: at.Elem(), Arr: er, Idx: i, Ty: at.Elem()}, x.Type()}
+		}
 		l := b.L
 		l.Path = append(append([]PathElem{}, l.Path...), PathElem{Idx: i})
 		l.Ty = at.Elem()
@@ -1285,6 +1294,31 @@ func (ex *Exec) indexAddr(fr *Frame, st *State, x *ssa.IndexAddr) Value {
 	}
 	unsup("IndexAddr on %T", ex.val(fr, x.X))
 	return nil
+}
+
+// embeddedArrayRef: if l designates an array-typed field (reached by field steps only) of a
+// heap struct whose element leaves live in the element family, the embedded reference.
+func embeddedArrayRef(l Loc) *Term {
+	if l.Kind != LHeap || len(l.Path) == 0 {
+		return nil
+	}
+	for _, p := range l.Path {
+		if p.Idx != nil {
+			return nil
+		}
+	}
+	prefix, _, ty := pathString(l.Root, l.Path)
+	at, ok := ty.Underlying().(*types.Array)
+	if !ok {
+		return nil
+	}
+	// nested arrays inside the element are not relocated
+	for _, lf := range leavesOf(at) {
+		if lf.ElemKey == "" {
+			return nil
+		}
+	}
+	return embRef(typeKey(l.Root), prefix, l.Ref)
 }
 
 func toInt64(v Sc) *Term {
@@ -1371,6 +1405,9 @@ func (ex *Exec) slice(fr *Frame, st *State, x *ssa.Slice) Value {
 func (ex *Exec) arrayAsSlice(fr *Frame, st *State, p PtrV, at *types.Array) SlV {
 	if p.L.Kind == LArr {
 		return SlV{p.L.Arr, BVi(0, 64), BVi(at.Len(), 64), BVi(at.Len(), 64), types.NewSlice(at.Elem())}
+	}
+	if er := embeddedArrayRef(p.L); er != nil {
+		return SlV{er, BVi(0, 64), BVi(at.Len(), 64), BVi(at.Len(), 64), types.NewSlice(at.Elem())}
 	}
 	if p.L.Kind != LCell || len(p.L.Path) != 0 {
 		unsup("slicing an array that is not a whole local variable")
